@@ -14,7 +14,9 @@ From QModel Require Import Batching.
 From QTheory Require Import BatchingT.
 Import ListNotations.
 
-(* ---------------------------------------------------------------- chunks library (the core) *)
+(* ---------------------------------------------------------------- chunks library (the core)
+   every statement carries 1 <= b: [cdiv n 0 = 0] / [chunks 0 l = []] are Coq totalisations, the code
+   raises for a zero step *)
 
 Theorem C07_cdiv_is_ceiling : forall n b, 1 <= b ->
   n <= cdiv n b * b /\ (1 <= n -> (cdiv n b - 1) * b < n).
@@ -43,14 +45,23 @@ Print Assumptions C07_chunks_exact.
 (* ---------------------------------------------------------------- one epoch of fit *)
 
 (* 0. under the contract of the random calls the data pipeline does not raise (every N, with or
-      without bases; N = 1 with bases raised IndexError before /repo dcba4ba) *)
+      without bases; N = 1 with bases raised IndexError before /repo dcba4ba).  The guard 1 <= pos_bs
+      is needed: ceil(N / 0) raises in the code (C07_zero_batch_size_raises) *)
 Theorem C07_pipeline_total : forall (A B : Type) (isZ : B -> bool) pos_bs neg_opt
     (data : list A) (bases : option (list B)) perm negidx,
+  1 <= pos_bs ->
   bases_shape_ok data bases ->
   fit_rand_ok isZ pos_bs neg_opt data bases perm negidx ->
   exists batches, fit_epoch isZ pos_bs neg_opt data bases perm negidx = Some batches.
 Proof. exact (@fit_succeeds). Qed.
 Print Assumptions C07_pipeline_total.
+
+(* definitional: restates the model (the model's guard mirroring ZeroDivisionError at ceil(N / 0)) *)
+Theorem C07_zero_batch_size_raises : forall (A B : Type) (isZ : B -> bool) neg_opt
+    (data : list A) (bases : option (list B)) perm negidx,
+  fit_epoch isZ 0 neg_opt data bases perm negidx = None.
+Proof. exact (@fit_zero_batch_size). Qed.
+Print Assumptions C07_zero_batch_size_raises.
 
 Theorem C07_single_row_with_bases :
   fit_epoch is_Z_row 1 None [10] (Some [[90; 90]]) [0] [0] = Some [ ([10], [10], Some [[90; 90]]) ].
@@ -121,6 +132,7 @@ Theorem C07_neg_rows_from_data : forall (A B : Type) (isZ : B -> bool) pos_bs ne
 Proof. exact (@fit_neg_rows_from_data). Qed.
 Print Assumptions C07_neg_rows_from_data.
 
+(* definitional: restates the model *)
 Theorem C07_neg_batch_size_default : forall pos_bs,
   default_neg pos_bs None = pos_bs /\ default_neg pos_bs (Some 0) = pos_bs /\
   forall k, default_neg pos_bs (Some (S k)) = S k.
@@ -141,6 +153,7 @@ Theorem C07_refbasis_membership : forall (A B : Type) (isZ : B -> bool) (data : 
 Proof. exact (@refbasis_In). Qed.
 Print Assumptions C07_refbasis_membership.
 
+(* definitional: restates the model *)
 Theorem C07_all_Z_predicate : forall r, is_Z_row r = true <-> Forall (eq 90) r.
 Proof. exact is_Z_row_spec. Qed.
 Print Assumptions C07_all_Z_predicate.
